@@ -101,6 +101,8 @@ type config struct {
 	// Reject: the server's OnRequest hook refuses the handshake: "status" = rejection error with status 403,
 	// "nostatus" = rejection error without a status (documented default 500), "plain" = an ordinary error (500).
 	Reject string
+	// RejectCode: the status of Reject == "status": any 4xx/5xx code, with or without a registered reason phrase.
+	RejectCode int
 	// Warm: the measured DebugDialer.Dial is preceded by this many dials through the SAME DebugDialer
 	// value (its own peers): a reused DebugDialer must behave like a new one.
 	Warm int
@@ -178,6 +180,10 @@ func drawConfig(t *rapid.T) config {
 	c.HTTPServer = rapid.IntRange(0, 3).Draw(t, "httpserver") == 0
 	if !c.HTTPServer && rapid.IntRange(0, 7).Draw(t, "reject?") == 0 {
 		c.Reject = rapid.SampledFrom([]string{"status", "nostatus", "plain"}).Draw(t, "reject")
+		c.RejectCode = 403
+		if c.Reject == "status" && rapid.Bool().Draw(t, "anycode") {
+			c.RejectCode = rapid.IntRange(400, 599).Draw(t, "rejectcode")
+		}
 	}
 	if !c.HTTPServer && rapid.IntRange(0, 3).Draw(t, "protocustom") == 0 {
 		c.ProtoCustom = true
@@ -267,7 +273,7 @@ func (c config) upgrader() ws.Upgrader {
 	switch c.Reject {
 	case "status":
 		u.OnRequest = func([]byte) error {
-			return ws.RejectConnectionError(ws.RejectionStatus(403), ws.RejectionReason("members only"))
+			return ws.RejectConnectionError(ws.RejectionStatus(c.RejectCode), ws.RejectionReason("members only"))
 		}
 	case "nostatus":
 		u.OnRequest = func([]byte) error { return ws.RejectConnectionError(ws.RejectionReason("no")) }
@@ -483,9 +489,12 @@ func TestPeersAgree(t *testing.T) {
 		if c.Reject != "" && !r.srvWriteFailed {
 			want := 500
 			if c.Reject == "status" {
-				want = 403
+				want = c.RejectCode
 			}
 			hx.Class("pair/rejected-by-hook=" + c.Reject)
+			if c.Reject == "status" && http.StatusText(want) == "" {
+				hx.Class("pair/rejected-by-hook=status/no-reason-phrase")
+			}
 			se, ok := r.cliErr.(ws.StatusError)
 			if r.srvErr == nil || !ok || int(se) != want {
 				t.Fatalf("the server's OnRequest hook rejected the handshake (%s): server err=%v; the dialer must report status %d, it reports %v\nresponse:\n%s", c.Reject, r.srvErr, want, r.cliErr, r.resp)
